@@ -984,7 +984,14 @@ func (g *pgProgGen) expr(t *pgTy, e *pgGenv, size int, allowLet bool) *pgNode {
 				}
 				return g.guard(n, t, e, allowLet)
 			}
-		case c < 26:
+		case c < 29:
+			// shadowing of an outer (constant) name after its use inside a closure / func body
+			if size >= 14 && t.K == "int" {
+				if n := g.shadowAfterUse(e); n != nil {
+					return g.guard(n, t, e, allowLet)
+				}
+			}
+		case c < 32:
 			// a pure built-in failing on constants must stay in the program (the fold is dropped, not replaced)
 			if size >= 4 {
 				var bad *pgNode
@@ -2080,6 +2087,56 @@ func pgSharedConst(form int, fname, x string, arg *pgNode, c1, c2 int64) *pgNode
 	return pgNLet(fname, pgNClo([]string{x}, body), pgNList(call(), call(), call()))
 }
 
+// pgShadowAfterUse: a closure/func body READS an outer name (bound to a computed constant expression
+// such as 2*3, or to a variable expression) and LATER declares a local of the same name and reads it
+// again - legal shadowing of an outer name after its use (not a redeclaration):
+//
+//	let a = 2*3; func f(n) let b = a; let a = n*10; a+b; f(x)
+//
+// ns = [a, b, f, n, m] pairwise different names; arg an int expression over the variables
+func pgShadowAfterUse(form int, ns []string, arg *pgNode, c1, c2 int64) *pgNode {
+	a, b, f, n, m := ns[0], ns[1], ns[2], ns[3], ns[4]
+	constExpr := pgNOp([]string{"*", "+", "-"}[int(c1)%3], pgNInt(c1), pgNInt(c2))
+	inner := func(outerUse *pgNode) *pgNode {
+		return pgNLet(b, outerUse, pgNLet(a, pgNOp("*", pgNId(n), pgNInt(10)), pgNOp("+", pgNOp("*", pgNId(a), pgNInt(100)), pgNId(b))))
+	}
+	switch form % 5 {
+	case 0:
+		return pgNLet(a, constExpr, pgNFunc(f, []string{n}, inner(pgNId(a)), pgNCall("closure", pgNId(f), arg)))
+	case 1:
+		return pgNLet(a, constExpr, pgNLet(f, pgNClo([]string{n}, inner(pgNOp("*", pgNId(a), pgNId(n)))), pgNCall("closure", pgNId(f), arg)))
+	case 2:
+		return pgNLet(a, constExpr, pgNCall("closure", pgNCall("closure", pgNClo([]string{m}, pgNClo([]string{n}, inner(pgNOp("+", pgNId(a), pgNId(m))))), arg), pgNInt(c2)))
+	case 3:
+		// the outer name is not a constant: captured with and without the optimizer
+		return pgNLet(a, pgNOp("*", arg, pgNInt(c1)), pgNFunc(f, []string{n}, inner(pgNId(a)), pgNCall("closure", pgNId(f), pgNInt(c2))))
+	}
+	// the use is inside a nested closure created before the local is declared
+	return pgNLet(a, constExpr, pgNLet(f, pgNClo([]string{n},
+		pgNLet(b, pgNCall("closure", pgNClo([]string{m}, pgNOp("+", pgNId(a), pgNId(m))), pgNId(n)), pgNLet(a, pgNOp("-", pgNId(n), pgNInt(c1)), pgNOp("-", pgNOp("*", pgNId(a), pgNInt(100)), pgNId(b))))),
+		pgNCall("closure", pgNId(f), arg)))
+}
+
+func (g *pgProgGen) shadowAfterUse(e *pgGenv) *pgNode {
+	taken := map[string]bool{}
+	for _, v := range e.vars {
+		if v.depth == e.depth {
+			taken[v.name] = true
+		}
+	}
+	var ns []string
+	for tries := 0; len(ns) < 5 && tries < 200; tries++ {
+		c := g.oneOf(pgNamePool)
+		if !pgContains(ns, c) && !taken[c] {
+			ns = append(ns, c)
+		}
+	}
+	if len(ns) < 5 {
+		return nil
+	}
+	return pgShadowAfterUse(g.pick(5), ns, g.expr(pgTInt, e, 3, false), int64(2+g.pick(5)), int64(1+g.pick(6)))
+}
+
 // pgEraseTicks: the tree with every call tick(k, x) / ptick(k, x) replaced by x (for the specification side)
 func pgEraseTicks(n *pgNode) *pgNode {
 	if n.K == "call" && len(n.Kids) == 3 && n.Kids[0].K == "ident" && (n.Kids[0].Name == "tick" || n.Kids[0].Name == "ptick") {
@@ -2169,6 +2226,7 @@ type pgProgram struct {
 	Tuples   [][]*Tree `json:"tuples"`
 	Stream   string    `json:"stream"` // corpus well-typed ill-typed redeclare
 	Oracle   *pgOracle `json:"oracle,omitempty"`
+	Host     string    `json:"host,omitempty"` // C02: name of the host configuration (registration API family) the program runs on
 }
 
 // pgOracle: a template program whose value the harness can compute itself (an independent Go-side
@@ -2178,10 +2236,117 @@ type pgProgram struct {
 //
 // with the arguments l (list of ints) and n (int)
 type pgOracle struct {
-	Stage    string `json:"stage"`    // compact combine number iir map accept
-	Consumer string `json:"consumer"` // size sum
+	Kind     string `json:"kind,omitempty"` // "" = lazy stage then lets; "twice" = one let-bound list extended twice (pgTwiceProgram)
+	Stage    string `json:"stage"`          // compact combine number iir map accept (twice: map accept skip top plus)
+	Consumer string `json:"consumer"`       // size sum (twice: the materialisation none size index string)
+	Mod      string `json:"mod,omitempty"`  // twice: append plus closure
 	K1, K2   int64
 	Extra    bool // a third let between creation and consumption
+}
+
+// pgTwiceProgram: call-by-value for list values - a let-bound list that came from a lazy stage is
+// extended twice (append / + / through a closure that captured it); both results and the list itself
+// are observed afterwards:
+//
+//	let l = a.map(x -> x*2); [let z = l.size();] let p = l.append(n + K1); let q = l.append(n * K2); [p, q, l]
+func pgTwiceProgram(stage, mat, mod string, k1, k2 int64, tuples [][]*Tree) *pgProgram {
+	a, n := pgNId("a"), pgNId("n")
+	var st *pgNode
+	switch stage {
+	case "map":
+		st = pgNMethod("method", a, "map", pgNClo([]string{"x"}, pgNOp("*", pgNId("x"), pgNInt(2))))
+	case "accept":
+		st = pgNMethod("method", a, "accept", pgNClo([]string{"x"}, pgNOp(">", pgNId("x"), pgNInt(0))))
+	case "skip":
+		st = pgNMethod("method", a, "skip", pgNInt(1))
+	case "top":
+		st = pgNMethod("method", a, "top", pgNInt(5))
+	default:
+		st = pgNOp("+", a, pgNList(n))
+	}
+	v1, v2 := pgNOp("+", n, pgNInt(k1)), pgNOp("*", n, pgNInt(k2))
+	ext := func(v *pgNode) *pgNode {
+		if mod == "plus" {
+			return pgNOp("+", pgNId("l"), pgNList(v))
+		}
+		return pgNMethod("method", pgNId("l"), "append", v)
+	}
+	var body *pgNode
+	if mod == "closure" {
+		body = pgNLet("f", pgNClo([]string{"k"}, pgNMethod("method", pgNId("l"), "append", pgNId("k"))),
+			pgNList(pgNCall("closure", pgNId("f"), v1), pgNCall("closure", pgNId("f"), v2), pgNId("l")))
+	} else {
+		body = pgNLet("p", ext(v1), pgNLet("q", ext(v2), pgNList(pgNId("p"), pgNId("q"), pgNId("l"))))
+	}
+	switch mat {
+	case "size":
+		body = pgNLet("z", pgNMethod("method", pgNId("l"), "size"), body)
+	case "index":
+		body = pgNLet("z", pgNTry(pgNIndex(pgNId("l"), pgNInt(0)), pgNInt(0)), body)
+	case "string":
+		body = pgNLet("z", pgNCall("static", pgNId("string"), pgNId("l")), body)
+	}
+	return &pgProgram{T: pgNLet("l", st, body), ArgNames: []string{"a", "n"}, Tuples: tuples, Stream: "list-extended-twice",
+		Oracle: &pgOracle{Kind: "twice", Stage: stage, Consumer: mat, Mod: mod, K1: k1, K2: k2}}
+}
+
+func (o *pgOracle) expectedTwice(tuple []*Tree) (string, bool) {
+	if len(tuple) != 2 || tuple[0].Kind != "list" || tuple[1].Kind != "int" {
+		return "", false
+	}
+	var a []int
+	for _, it := range tuple[0].Items {
+		if it.Kind != "int" {
+			return "", false
+		}
+		a = append(a, it.I)
+	}
+	n := tuple[1].I
+	var l []int
+	switch o.Stage {
+	case "map":
+		for _, v := range a {
+			l = append(l, v*2)
+		}
+	case "accept":
+		for _, v := range a {
+			if v > 0 {
+				l = append(l, v)
+			}
+		}
+	case "skip":
+		if len(a) > 1 {
+			l = append(l, a[1:]...)
+		}
+	case "top":
+		l = append(l, a[:min(len(a), 5)]...)
+	default:
+		l = append(append(l, a...), n)
+	}
+	show := func(xs []int) string {
+		parts := make([]string, len(xs))
+		for i, x := range xs {
+			parts[i] = fmt.Sprintf("i%d", x)
+		}
+		return "[" + strings.Join(parts, ",") + "]"
+	}
+	p := append(append([]int{}, l...), n+int(o.K1))
+	q := append(append([]int{}, l...), n*int(o.K2))
+	return "[" + show(p) + "," + show(q) + "," + show(l) + "]", true
+}
+
+func (g *pgProgGen) twiceProgram() *pgProgram {
+	var tuples [][]*Tree
+	for v := 0; v < 3; v++ {
+		k := []int{3, 5, 6, 7, 3, 2, 4, 9}[g.pick(8)]
+		var items []*Tree
+		for i := 0; i < k; i++ {
+			items = append(items, &Tree{Kind: "int", I: 1 + g.pick(9)})
+		}
+		tuples = append(tuples, []*Tree{{Kind: "list", Items: items, Repr: "eager"}, {Kind: "int", I: 10*(v+1) + g.pick(90)}})
+	}
+	return pgTwiceProgram(g.oneOf([]string{"map", "accept", "skip", "top", "plus"}), g.oneOf([]string{"none", "size", "index", "string"}),
+		g.oneOf([]string{"append", "append", "plus", "closure"}), int64(1+g.pick(9)), int64(2+g.pick(5)), tuples)
 }
 
 var pgLetStages = []string{"compact", "combine", "number", "iir", "map", "accept"}
@@ -2223,6 +2388,9 @@ func pgLazyLetProgram(stage, consumer string, k1, k2 int64, extra bool, tuples [
 
 // the value of the template computed natively (Go int arithmetic wraps like the implementation's)
 func (o *pgOracle) Expected(tuple []*Tree) (string, bool) {
+	if o.Kind == "twice" {
+		return o.expectedTwice(tuple)
+	}
 	if len(tuple) != 2 || tuple[0].Kind != "list" || tuple[1].Kind != "int" {
 		return "", false
 	}
@@ -2325,6 +2493,9 @@ func pgGenProgramMode(r *Rng, statics map[string]bool, maxNodes int, c02 bool) *
 		if !c02 && r.Chance(0.03) {
 			return g.lazyLetProgram()
 		}
+		if !c02 && r.Chance(0.03) {
+			return g.twiceProgram()
+		}
 		nargs := 1 + r.Pick(3)
 		var names []string
 		var tys []*pgTy
@@ -2364,6 +2535,8 @@ func pgGenProgramMode(r *Rng, statics map[string]bool, maxNodes int, c02 bool) *
 		}
 		if tree != nil {
 			// the context-permutation shape at the root
+		} else if c02 && budget >= 20 && r.Chance(0.05) {
+			tree = g.shadowAfterUse(env)
 		} else if c02 && budget >= 24 && r.Chance(0.06) {
 			tree = pgNOp("+", g.guard(g.impureNested(env), pgTInt, env, false), g.expr(pgTInt, env, 4, false))
 		} else if c02 && r.Chance(0.2) {
@@ -2371,6 +2544,9 @@ func pgGenProgramMode(r *Rng, statics map[string]bool, maxNodes int, c02 bool) *
 		} else if r.Chance(0.12) && budget >= 10 {
 			tree = g.curried(rt, env, budget)
 		} else {
+			tree = g.expr(rt, env, budget, true)
+		}
+		if tree == nil {
 			tree = g.expr(rt, env, budget, true)
 		}
 		if tree.Count() > maxNodes {
